@@ -46,6 +46,9 @@ type startEvent struct {
 	activated   atomic.Bool
 	idGenerator id.IGenerator
 	satisfier   *logic.CatchEventSatisfier
+	// running: the run loop drains mch; stopped is closed when it returns
+	running atomic.Bool
+	stopped chan struct{}
 }
 
 func newStartEvent(wr *wiring, element *schema.StartEvent, idGenerator id.IGenerator) (evt *startEvent, err error) {
@@ -68,6 +71,7 @@ func newStartEvent(wr *wiring, element *schema.StartEvent, idGenerator id.IGener
 		activated:   atomic.Bool{},
 		idGenerator: idGenerator,
 		satisfier:   logic.NewCatchEventSatisfier(element, wr.eventDefinitionInstanceBuilder),
+		stopped:     make(chan struct{}),
 	}
 	err = evt.eventEgress.RegisterEventConsumer(evt)
 	if err != nil {
@@ -78,6 +82,10 @@ func newStartEvent(wr *wiring, element *schema.StartEvent, idGenerator id.IGener
 
 func (evt *startEvent) run(ctx context.Context, sender tracing.ISenderHandle) {
 	defer sender.Done()
+	defer func() {
+		evt.running.Store(false)
+		close(evt.stopped)
+	}()
 
 	for {
 		select {
@@ -113,7 +121,20 @@ func (evt *startEvent) flow(ctx context.Context) {
 }
 
 func (evt *startEvent) ConsumeEvent(ev event.IEvent) (result event.ConsumptionResult, err error) {
-	evt.mch <- eventMessage{event: ev}
+	// Delivering an event never blocks: while the run loop is not running (not
+	// started yet, or gone with the instance's context) nobody drains the inbox,
+	// so the event is queued only if there is room.
+	if evt.running.Load() {
+		select {
+		case evt.mch <- eventMessage{event: ev}:
+		case <-evt.stopped:
+		}
+	} else {
+		select {
+		case evt.mch <- eventMessage{event: ev}:
+		default:
+		}
+	}
 	result = event.Consumed
 	return
 }
@@ -121,6 +142,7 @@ func (evt *startEvent) ConsumeEvent(ev event.IEvent) (result event.ConsumptionRe
 func (evt *startEvent) Trigger(ctx context.Context) {
 	evt.once.Do(func() {
 		sender := evt.tracer.RegisterSender()
+		evt.running.Store(true)
 		go evt.run(ctx, sender)
 	})
 
@@ -130,6 +152,7 @@ func (evt *startEvent) Trigger(ctx context.Context) {
 func (evt *startEvent) NextAction(ctx context.Context, flow Flow) chan IAction {
 	evt.once.Do(func() {
 		sender := evt.tracer.RegisterSender()
+		evt.running.Store(true)
 		go evt.run(ctx, sender)
 	})
 
